@@ -59,6 +59,7 @@ def run(facts, rep):
     d3_chunks(facts, rep)
     d4_items(facts, rep)
     d5_overloads(facts, rep)
+    d6_count_arithmetic(facts, rep)
 
 
 def divisible_edges(fn, ranges):
@@ -400,3 +401,172 @@ def d5_overloads(facts, rep):
         if unc:
             rep.note('D5: %d overload(s) of %s are not instantiated by the drivers and were not analysed' % (unc, fam))
     rep.floor('D5', 25, 'public overloads of parallel_for / parallel_for_each')
+
+
+# ---------------------------------------------------------------------------------------------------------------
+# D6: the iteration count / split point is computed without an intermediate that can leave the index type
+# ---------------------------------------------------------------------------------------------------------------
+class Iv(object):
+    """interval whose bounds are linear in the (symbolic) maximum M of the index type: bound = (c, k) meaning c*M + k"""
+    TOP_LO, TOP_HI = (-1.0, -1.0), (1.0, 0.0)
+
+    def __init__(self, lo, hi):
+        self.lo, self.hi = lo, hi
+
+    @staticmethod
+    def const(c):
+        return Iv((0.0, float(c)), (0.0, float(c)))
+
+    @staticmethod
+    def top():
+        return Iv(Iv.TOP_LO, Iv.TOP_HI)
+
+    def __repr__(self):
+        def b(x):
+            return '%s%s' % (('%gM' % x[0]) if x[0] else '', ('%+g' % x[1]) if x[1] or not x[0] else '')
+        return '[%s, %s]' % (b(self.lo), b(self.hi))
+
+
+def _add(a, b):
+    return (a[0] + b[0], a[1] + b[1])
+
+
+def _neg(a):
+    return (-a[0], -a[1])
+
+
+def count_interval(fn, s, env, findings):
+    """abstract value of integer expression s; `env(node)` gives intervals for recognised sub-expressions (guards).  Records in
+    `findings` every addition whose operands can both reach the maximum of the type independently (and every subtraction of a
+    value that can reach the minimum from one that can reach the maximum)."""
+    s = fn.strip(s)
+    n = fn.n(s)
+    known = env(s)
+    if known is not None:
+        return known
+    k = n.get('k')
+    if n.get('cv') is not None and k in ('lit', 'rd', 'cast', 'enum', 'binop', 'unop'):
+        return Iv.const(n['cv'])
+    if k in ('cast', 'rd', 'paren'):
+        return count_interval(fn, n['sub'], env, findings)
+    if k == 'ctor' and len(n.get('a', [])) == 1:
+        return count_interval(fn, n['a'][0], env, findings)
+    if k == 'binop':
+        op = n['op']
+        if op in ('+', '-', '/', '%', '*'):
+            a = count_interval(fn, n['l'], env, findings)
+            b = count_interval(fn, n['r'], env, findings)
+            if op == '+':
+                if a.hi[0] >= 1 and b.hi[0] >= 1:
+                    findings.append((n.get('ln'), '%s + %s' % (fn.show(n['l']), fn.show(n['r'])), a, b))
+                return Iv(_add(a.lo, b.lo), _add(a.hi, b.hi))
+            if op == '-':
+                if a.hi[0] >= 1 and b.lo[0] <= -1:
+                    findings.append((n.get('ln'), '%s - %s' % (fn.show(n['l']), fn.show(n['r'])), a, b))
+                return Iv(_add(a.lo, _neg(b.hi)), _add(a.hi, _neg(b.lo)))
+            if op == '/':
+                # divisor >= 1 (recognised from the guards): the magnitude does not grow; a constant divisor c >= 1 scales
+                c = fn.cv(n['r'])
+                if c is not None and c >= 1:
+                    return Iv((min(a.lo[0] / c, 0.0) if a.lo[0] < 0 else a.lo[0] / c, min(a.lo[1] / c, a.lo[1])),
+                              (a.hi[0] / c, a.hi[1] / c if a.hi[1] > 0 else a.hi[1]))
+                if b.lo[0] > 0 or (b.lo[0] == 0 and b.lo[1] >= 1):
+                    return Iv((min(a.lo[0], 0.0), min(a.lo[1], 0.0)), (max(a.hi[0], 0.0), max(a.hi[1], 0.0) if a.hi[0] == 0 else a.hi[1]))
+                return Iv.top()
+            if op == '%':
+                if b.lo[0] > 0 or (b.lo[0] == 0 and b.lo[1] >= 1):
+                    return Iv((0.0, 0.0), _add(b.hi, (0.0, -1.0)))
+                return Iv.top()
+            return Iv.top()
+        if op in ('<', '>', '<=', '>=', '==', '!=', '&&', '||'):
+            return Iv((0.0, 0.0), (0.0, 1.0))
+    if k == 'unop' and n.get('op') == '!':
+        return Iv((0.0, 0.0), (0.0, 1.0))
+    return Iv.top()
+
+
+def d6_count_arithmetic(facts, rep):
+    """parallel_for(first, last, step, f) turns the stepped loop into a blocked_range [0, count): count must be computed without
+    an intermediate result that can exceed the index type - first < last and step >= 1 are known (dominating guards), so
+    (last - first) and step are each anywhere in [1, MAX].  A sum of two quantities that can both reach MAX on their own
+    (rounding up by adding step - 1 to the distance, (begin + end) / 2 for a split point) wraps or overflows for loops near the
+    top of the type: the loop silently visits nothing or the wrong indices.  Decided by a small interval evaluation of the
+    expression (bounds linear in MAX) under the guards that dominate it; only that one shape is reported."""
+    from engine.rules import expr_key
+    n = 0
+    for fn in facts.by_p.get(D1 + 'parallel_for_impl', []):
+        params = [pp for pp in fn.d.get('params', [])]
+        if len(params) < 3:
+            continue
+        # the count is the value of the second constructor argument of the blocked_range built here
+        ctors = [c for c in calls(fn, kinds=('ctor',)) if (c[2].get('cls') or '').endswith('blocked_range') and len(c[2].get('a', [])) >= 2]
+        if not ctors:
+            continue
+        defs = Defs(fn)
+        for pos, s, node, d in ctors:
+            cnt = resolve_cond_source(fn, defs, node['a'][1])
+            # guards that dominate the computation
+            pos_cnt = fn.pos_of(cnt) or pos
+            positive = set()         # expr keys known to be >= 1
+            ordered = set()          # (key small, key big) with small < big known
+            for b, blk in fn.blocks.items():
+                if len(blk['succ']) != 2 or not blk.get('term') or 'c' not in blk['term']:
+                    continue
+                for si in (0, 1):
+                    if blk['succ'][si] is None or not dominated_by_edges(fn, pos_cnt, {(b, si)})[0]:
+                        continue
+                    for (a, truth) in fn.edge_conds(b, si):
+                        an = fn.n(fn.strip(a))
+                        if an.get('k') != 'binop':
+                            continue
+                        l, r, op = an['l'], an['r'], an['op']
+                        if not truth:
+                            op = {'<': '>=', '<=': '>', '>': '<=', '>=': '<'}.get(op)
+                        if op in ('>', '>=') and fn.cv(r) is not None and (fn.cv(r) >= 1 or (op == '>' and fn.cv(r) >= 0)):
+                            positive.add(expr_key(fn, l))
+                        if op == '<':
+                            ordered.add((expr_key(fn, l), expr_key(fn, r)))
+                        if op == '>':
+                            ordered.add((expr_key(fn, r), expr_key(fn, l)))
+
+            def env(x, positive=positive, ordered=ordered):
+                xn = fn.n(x)
+                if expr_key(fn, x) in positive:
+                    return Iv((0.0, 1.0), (1.0, 0.0))
+                if xn.get('k') == 'binop' and xn['op'] == '-' and (expr_key(fn, xn['r']), expr_key(fn, xn['l'])) in ordered:
+                    return Iv((0.0, 1.0), (1.0, 0.0))          # big - small with small < big known: the distance, 1 .. MAX
+                return None
+            findings = []
+            count_interval(fn, cnt, env, findings)
+            n += 1
+            rep.ob('D6', 'K14', fn, 'the iteration count of the stepped parallel_for is computed without adding two independently full-range '
+                   'quantities (line %s)' % fn.n(cnt).get('ln'), not findings,
+                   '; '.join('line %s: `%s` with operands in %s and %s can exceed the index type although first < last and step >= 1: for loops '
+                             'near the top of the type the count wraps and the loop visits nothing / the wrong indices' % f for f in findings),
+                   ln=fn.n(cnt).get('ln'), key_extra='count|%s' % fn.l0)
+    if n < 2:
+        raise AnalysisBroken('parallel_for_impl: iteration count computations not found (%d)' % n)
+    m = 0
+    for fn in facts.by_p.get(D1 + 'blocked_range::do_split', []):
+        defs = Defs(fn)
+        pp = fn.d.get('params', [])
+        if len(pp) < 2 or 'proportional' in (pp[1].get('ty') or ''):
+            continue
+        rets = [node for pos, s, node in fn.stmt_elems(('return',)) if 'sub' in node]
+        for node in rets:
+            mid = resolve_cond_source(fn, defs, node['sub'])
+
+            def env2(x):
+                xn = fn.n(x)
+                if xn.get('k') == 'binop' and xn['op'] == '-' and last_member(fn, xn['l']) == 'my_end' and last_member(fn, xn['r']) == 'my_begin':
+                    return Iv((0.0, 0.0), (1.0, 0.0))          # class invariant begin <= end (documented precondition)
+                return None
+            findings = []
+            count_interval(fn, mid, env2, findings)
+            m += 1
+            rep.ob('D6', 'K14', fn, 'the split point is computed without adding two independently full-range quantities', not findings,
+                   '; '.join('line %s: `%s` can exceed the value type (operands in %s and %s): ranges in the upper half of the type are split at a '
+                             'wrapped position' % f for f in findings), key_extra='mid|%s' % fn.l0)
+    if m < 1:
+        raise AnalysisBroken('blocked_range::do_split(split): split point computation not found')
+    rep.floor('D6', 3, 'count / split point arithmetic')
